@@ -297,3 +297,153 @@ theorem leaf_rt (t : Ty) (ht : IsLeafTy t) (L : LenKind) (E : Enc) (tag : Option
       rw [leaf_de_eq t ht]; exact hde
 
 end Zvt
+
+namespace Zvt
+
+/-! ### schemas: what may follow a field, well-formedness, canonical values -/
+
+mutual
+/-- what may follow the encoding of a field of this shape for the decoder to read it back. -/
+def Ty.follow : Ty → LenKind → Enc → Option Nat → Follow
+  | .opt t, L, E, tag => Ty.follow t L E tag
+  | .vec _, _, _, tag =>
+    match tag with
+    | some tg => .noStart tg
+    | none => .endOnly
+  | .struct fs, L, _, _ => if L.delim then .any else if fieldsTransparent fs then .any else .endOnly
+  | .int w, L, E, _ => leafFollow (.int w) L E
+  | .str, L, E, _ => leafFollow .str L E
+  | .bytes, L, E, _ => leafFollow .bytes L E
+  | .dateTime, L, E, _ => leafFollow .dateTime L E
+termination_by structural t => t
+/-- a struct that can stand without a length prefix: only positional, self-delimiting fields. -/
+def fieldsTransparent : List Field → Bool
+  | [] => true
+  | .mk _ tag L E ty :: fs => tag.isNone && (Ty.follow ty L E none == .any) && fieldsTransparent fs
+termination_by structural fs => fs
+end
+
+/-- not `Option`/`Vec` (what may stand inside an `Option` or a `Vec`). -/
+def Ty.plain : Ty → Bool
+  | .opt _ => false
+  | .vec _ => false
+  | _ => true
+
+def structLenOK : LenKind → Bool
+  | .tlv => true
+  | .llv _ => true
+  | .empty => true
+  | _ => false
+
+mutual
+/-- **Well-formed field shapes** (Boolean, evaluated by the kernel on the shipped schema). -/
+def Ty.wf : Ty → LenKind → Enc → Option Nat → Bool
+  | .opt t, L, E, tag => t.plain && Ty.wf t L E tag
+  | .vec t, L, E, tag => tag.isSome && t.plain && Ty.wf t L E tag && (Ty.follow t L E tag == .any)
+  | .struct fs, L, _, tag => tagOK tag && structLenOK L && fieldsWf fs
+  | .int w, L, E, tag => leafWf (.int w) L E tag
+  | .str, L, E, tag => leafWf .str L E tag
+  | .bytes, L, E, tag => leafWf .bytes L E tag
+  | .dateTime, L, E, tag => leafWf .dateTime L E tag
+termination_by structural t => t
+/-- positional fields first, each self-delimiting unless it is the very last field; then tagged fields with
+pairwise distinct numbers, none of which takes everything. -/
+def fieldsWf : List Field → Bool
+  | [] => true
+  | .mk _ tag L E ty :: fs =>
+    Ty.wf ty L E tag && fieldsWf fs &&
+    (match tag with
+     | none => (Ty.follow ty L E none == .any) || fs.isEmpty
+     | some t => fs.all (fun f => f.tag.isSome && f.tag != some t) && (Ty.follow ty L E tag != .endOnly))
+termination_by structural fs => fs
+end
+
+mutual
+/-- **Canonical values** (DESIGN.md §5.1), by recursion on the schema. -/
+def Ty.canon : Ty → LenKind → Enc → Option Nat → Val → Prop
+  | .opt t, L, E, tag, v =>
+    match v with
+    | .none => tag.isSome = true          -- an absent positional optional is outside the domain
+    | .some v' => Ty.canon t L E tag v'
+    | _ => False
+  | .vec t, L, E, tag, v =>
+    match v with
+    | .vec vs => ∀ v' ∈ vs, Ty.canon t L E tag v'
+    | _ => False
+  | .struct fs, L, _, _, v =>
+    match v with
+    | .struct vs => fieldsCanon fs vs ∧ ∀ p, encFields fs vs = .ok p → LenOK L p.length
+    | _ => False
+  | .int w, L, E, _, v => leafCanon L E (.int w) v
+  | .str, L, E, _, v => leafCanon L E .str v
+  | .bytes, L, E, _, v => leafCanon L E .bytes v
+  | .dateTime, L, E, _, v => leafCanon L E .dateTime v
+termination_by structural t => t
+def fieldsCanon : List Field → List Val → Prop
+  | [], vs => vs = []
+  | .mk _ tag L E ty :: fs, vs =>
+    match vs with
+    | v :: vs' => Ty.canon ty L E tag v ∧ fieldsCanon fs vs'
+    | [] => False
+termination_by structural fs => fs
+end
+
+/-- the value writes bytes (an absent `Option` and an empty `Vec` write nothing). -/
+def Present : Val → Prop
+  | .none => False
+  | .vec [] => False
+  | _ => True
+
+instance (v : Val) : Decidable (Present v) := by
+  cases v with
+  | none => exact isFalse (by simp [Present])
+  | vec vs => cases vs with
+    | nil => exact isFalse (by simp [Present])
+    | cons a as => exact isTrue (by simp [Present])
+  | num n => exact isTrue (by simp [Present])
+  | str cs => exact isTrue (by simp [Present])
+  | raw b => exact isTrue (by simp [Present])
+  | dt d t => exact isTrue (by simp [Present])
+  | some v => exact isTrue (by simp [Present])
+  | struct vs => exact isTrue (by simp [Present])
+
+/-- what the generic theorem says about one field. -/
+structure FieldRT (t : Ty) (L : LenKind) (E : Enc) (tag : Option Nat) (v : Val) (bytes : Bytes) : Prop where
+  ser : Ty.ser t L E tag v = .ok bytes
+  de : Present v → ∀ x, (Ty.follow t L E tag).holds x → Ty.de t L E tag (bytes ++ x) = .ok (v, x)
+  tagged : ∀ tg, tag = some tg → Present v → bytes ≠ [] ∧ ∀ x, ∃ r, tagDecDefault (bytes ++ x) = .ok (tg, r)
+  absent : ¬ Present v → bytes = [] ∧ t.isOptional = true ∧ v = t.dflt
+
+theorem follow_holds_nil (F : Follow) : F.holds [] := by
+  cases F with
+  | any => trivial
+  | noStart t => exact noStart_nil t
+  | endOnly => rfl
+
+theorem leafCanon_present (L : LenKind) (E : Enc) (t : Ty) (v : Val) (h : leafCanon L E t v) : Present v := by
+  obtain ⟨p, _, _, hm⟩ := h
+  cases v with
+  | none => cases E <;> cases t <;> exact False.elim hm
+  | vec vs => cases E <;> cases t <;> exact False.elim hm
+  | num n => simp [Present]
+  | str cs => simp [Present]
+  | raw b => simp [Present]
+  | dt d t => simp [Present]
+  | some v => simp [Present]
+  | struct vs => simp [Present]
+
+theorem leaf_fieldRT (t : Ty) (ht : IsLeafTy t) (L : LenKind) (E : Enc) (tag : Option Nat) (v : Val)
+    (hfo : Ty.follow t L E tag = leafFollow t L E)
+    (hwf : leafWf t L E tag = true) (hc : leafCanon L E t v) : ∃ bytes, FieldRT t L E tag v bytes := by
+  obtain ⟨bytes, hs, hd, r, hb⟩ := leaf_rt t ht L E tag v hwf hc
+  have hp := leafCanon_present L E t v hc
+  refine ⟨bytes, ⟨hs, fun _ x hx => hd x (by rw [← hfo]; exact hx), ?_, fun h => absurd hp h⟩⟩
+  intro tg htg _
+  subst htg
+  have hrep : tagRepresentable tg := by
+    simp only [leafWf, Bool.and_eq_true] at hwf
+    simpa [tagOK] using hwf.1.2
+  rw [hb]
+  exact tagPrefix_facts tg hrep r
+
+end Zvt
